@@ -62,6 +62,8 @@ theorem exec_allow_cases {w w' : World} {blk : Block} {op : Op} {o : Outcome} (h
     simp [World.exec, ibcChannelConnect] at h
     obtain ⟨s, ⟨_, _, rfl⟩, rfl, rfl⟩ := h
     exact Or.inl rfl
+  | chanOpen v cv ord => obtain ⟨rfl, _⟩ := exec_chanOpen h; exact Or.inl rfl
+  | chanClose id => exact (exec_chanClose h).elim
   | transferNative snd funds msg =>
     obtain ⟨d, amt, w1, s, out, _, _, hb, ht, rfl, _⟩ := exec_transferNative_spec h
     obtain ⟨ch, _, rfl, _⟩ := execTransfer_spec ht
